@@ -22,7 +22,7 @@ from pathlib import Path
 
 import coqparse
 
-VERIF = Path('/verif')
+VERIF = Path(os.environ.get('VERIF_ROOT') or Path(__file__).resolve().parents[1])
 REPO = Path(os.environ.get('FURAX_REPO', '/repo'))
 COQ = VERIF / 'coq'
 THEORIES = COQ / 'theories'
